@@ -49,12 +49,16 @@ type Scenario struct {
 	// clock); otherwise as soon as every caller has enqueued or returned.
 	ShutdownAt time.Duration
 	Bound      int // preemption bound override (0: tier default)
+	ZeroBound  bool
+	QB, TB     int // per-tier preemption bound overrides
+	Pack       []*Scenario // a pack runs its members one after the other in one worker
 }
 
 type CallerSpec struct {
 	Label       string
 	Reqs        []Shape
 	Cancellable bool          // a canceller thread may cancel the caller's context at any point
+	CtxOnly     bool          // cancellable context, but nobody cancels it (the monitors only track derivation)
 	Deadline    time.Duration // >0: context with a virtual-time deadline
 	Metadata    map[string][]string
 	ArriveAt    time.Duration // virtual arrival time of the first request
@@ -143,7 +147,7 @@ func comboOf(keys []string, md map[string][]string) string {
 				present = true
 			}
 		}
-		if !present {
+		if !present || len(vals) == 0 {
 			parts = append(parts, lk+"=<absent>")
 		} else {
 			parts = append(parts, fmt.Sprintf("%s=%q", lk, vals))
@@ -356,7 +360,7 @@ func (w *World) Main() {
 		if c.Spec.Metadata != nil {
 			ctx = client.NewContext(ctx, client.Info{Metadata: client.NewMetadata(c.Spec.Metadata)})
 		}
-		if c.Spec.Cancellable {
+		if c.Spec.Cancellable || c.Spec.CtxOnly {
 			ctx, c.cancel = vcontext.WithCancel(ctx)
 			c.Ctrl = vcontext.Controller(ctx)
 		} else if c.Spec.Deadline > 0 {
